@@ -27,7 +27,7 @@ CLAUSES = {
     30: ('C20', 'RobotsFetchedWhenOff'), 31: ('C20', 'RobotsFetchedAgain'), 32: ('C20', 'PageBeforeRobots'),
     33: ('C20', 'DisallowedRequested'), 34: ('C20', 'NofollowLinkFollowed'),
     40: ('C18', 'VisitRequestBound'), 41: ('C18', 'RetriedAfterTriesExhausted'), 42: ('C18', 'EndedWithPendingWork'),
-    43: ('C18', 'ErrorRowLeftBelowTries'),
+    43: ('C18', 'ErrorRowLeftBelowTries'), 44: ('C18', 'TryCountBeyondLimit'),
     50: ('C03', 'DoneRefetched'), 51: ('C03', 'StuckInProgress'), 52: ('C03', 'RowLost'), 53: ('C03', 'NeverRequested'),
     54: ('C03', 'RowsNotFinalAfterResume'),
 }
@@ -270,7 +270,9 @@ def judge(chk, traces):
             raise tlc.TLCError('CrawlMon did not consume trace of %s: %r' % (scn['name'], v))
         if not v['bad']:
             continue
-        prop, name = CLAUSES.get(v['bad'], ('?', str(v['bad'])))
+        if v['bad'] not in CLAUSES:
+            raise tlc.TLCError('CrawlMon reported an unknown clause %r' % (v,))
+        prop, name = CLAUSES[v['bad']]
         if v['bad'] == 14:
             prop = pid
         if prop != pid:
